@@ -98,7 +98,7 @@ def run(ctx):
     ctx.require_regimes('av_interior', 'av_clamped_lo', 'av_clamped_hi', 'lo_eq_hi', 'limit_violated',
                         'limit_satisfied', 'k0_band', 'style:v1', 'style:v2name', 'style:v2wav',
                         'memmap_on', 'memmap_off')
-    n_pkg = 8 if ctx.quick else 30
+    n_pkg = 8 if ctx.quick else 150
     n_src = 30 if ctx.quick else 60
     for ip in range(n_pkg):
         d = ctx.newdir('p')
